@@ -225,6 +225,9 @@ def run(ctx, replay=None):
             ("rsp", {"block": 2, "solver": "qr", "max_iter": 300, "test": 2}), ("rsp_col", {"block": 3, "solver": "spd", "max_iter": 300, "test": 3}),
             ("rsp", {"block": 1, "solver": "spd", "max_iter": 400, "test": 1}),
             ("hybrid", {"block": 2, "p": 4, "T": 3, "solver": "qr", "max_iter": 120}),
+            # hyperpower orders that are not powers of two (the order is a free integer parameter)
+            ("hybrid", {"block": 2, "p": 3, "T": 2, "solver": "qr", "max_iter": 120}),
+            ("hybrid", {"block": 3, "p": 5, "T": 3, "solver": "spd", "max_iter": 120}),
             ("cgne", {"max_iter": 500}),
             # reused objects: the measured call follows a call on a nearby matrix of the same shape
             ("hybrid", {"block": 2, "p": 4, "T": 3, "solver": "qr", "max_iter": 120, "warm": True}),
@@ -237,7 +240,8 @@ def run(ctx, replay=None):
             ("rsp", {"block": 2, "solver": "qr", "max_iter": 300, "inject": {"qr_raise_every": 3}}),
             ("hybrid", {"block": 2, "p": 4, "T": 3, "solver": "spd", "max_iter": 120, "inject": {"spd_fail_every": 2}})]
     if thorough:
-        cfgs += [("hybrid", {"block": 3, "p": 2, "T": 5, "solver": "spd", "max_iter": 150}), ("hybrid", {"block": 2, "p": 8, "T": 2, "solver": "qr", "max_iter": 100}),
+        cfgs += [("hybrid", {"block": 2, "p": 6, "T": 2, "solver": "qr", "max_iter": 120}), ("hybrid", {"block": 2, "p": 7, "T": 1, "solver": "qr", "max_iter": 120}),
+                 ("hybrid", {"block": 3, "p": 2, "T": 5, "solver": "spd", "max_iter": 150}), ("hybrid", {"block": 2, "p": 8, "T": 2, "solver": "qr", "max_iter": 100}),
                  ("cgne", {"max_iter": 500, "prec": 2, "pseed": 3}), ("rsp_col", {"block": 3, "solver": "spd", "max_iter": 300})]
     jobs = []
     tid = 0
